@@ -131,6 +131,42 @@ theorem C05_nextBack_next (D : Derive) (h : D.WF) (v w : Int) (hv : v ∈ D.vals
   rw [C05_nextBack_index D h (i + 1) hi1]
   simp [List.getElem?_eq_getElem hi]
 
+/-- `next(next_back(w)) == Some(w)` whenever `next_back(w)` is `Some` -/
+theorem C05_next_nextBack (D : Derive) (h : D.WF) (v w : Int) (hw : w ∈ D.vals) (hn : nextBackFn D w = .ok (some v)) :
+    nextFn D v = .ok (some w) ∧ v ∈ D.vals := by
+  obtain ⟨i, hi, rfl⟩ := List.getElem_of_mem hw
+  rw [C05_nextBack_index D h i hi] at hn
+  by_cases h0 : i = 0
+  · simp [h0] at hn
+  · have hn' : D.vals[i - 1]? = some v := by simpa [h0] using hn
+    obtain ⟨hi1, hv⟩ := List.getElem?_eq_some_iff.mp hn'
+    subst hv
+    refine ⟨?_, List.getElem_mem hi1⟩
+    rw [C05_next_index D h (i - 1) hi1]
+    have : i - 1 + 1 = i := by omega
+    simp [this, List.getElem?_eq_getElem hi]
+
+/-- `next(v) = Some(w)` says: `w` is a variant, `v < w`, and no variant lies strictly between the two -/
+theorem C05_next_least (D : Derive) (h : D.WF) (v w : Int) (hv : v ∈ D.vals) (hn : nextFn D v = .ok (some w)) :
+    w ∈ D.vals ∧ v < w ∧ ∀ u ∈ D.vals, v < u → w ≤ u := by
+  rw [C05_next D h v hv] at hn
+  have hn' : spec.next D.sem v = some w := by injection hn
+  unfold spec.next at hn'; rw [D.sem_discs] at hn'
+  have hs := h.sorted
+  obtain ⟨hp, as, bs, hl, has⟩ := List.find?_eq_some_iff_append.mp hn'
+  have hvw : v < w := by simpa using hp
+  refine ⟨List.mem_of_find?_eq_some hn', hvw, ?_⟩
+  intro u hu hvu
+  rw [hl] at hu hs
+  rw [List.pairwise_append] at hs
+  obtain ⟨_, hbs, _⟩ := hs
+  rw [List.pairwise_cons] at hbs
+  rcases List.mem_append.mp hu with hua | hub
+  · have := has u hua; simp at this; omega
+  · rcases List.mem_cons.mp hub with rfl | hub'
+    · exact Int.le_refl _
+    · exact Int.le_of_lt (hbs.1 u hub')
+
 /-- non-vacuity: three runs, a negative later run, the last run ending at the type's MAX (where `+1` wraps) -/
 example : exD1.WF ∧ nextFn exD1 (-4) = .ok (some 3) ∧ nextFn exD1 127 = .ok none ∧ nextBackFn exD3 (-128) = .ok none
     ∧ nextBackFn exD1 3 = .ok (some (-4)) ∧ nextFn exD2 255 = .ok none := by
